@@ -11,6 +11,10 @@ _CMP = {ast.Lt: lambda x, y: x < y, ast.LtE: lambda x, y: x <= y, ast.Gt: lambda
         ast.GtE: lambda x, y: x >= y, ast.Eq: lambda x, y: x == y, ast.NotEq: lambda x, y: x != y}
 
 
+def B_default(tag):
+    return {'real': 'float64', 'int': 'int64', 'bool': 'bool'}.get(tag.kind, tag.kind)
+
+
 def _coerce2(a, b):
     a, b = _z(a), _z(b)
     if z3.is_int(a) and z3.is_real(b):
@@ -477,6 +481,9 @@ class NPMixin:
                 return (not r) if isinstance(r, bool) else z3.Not(r)
             return r
         A, B = self.deref(st, a), self.deref(st, b)
+        if isinstance(A, KindTag) and isinstance(B, KindTag) and isinstance(op, (ast.Eq, ast.NotEq)):
+            same = A.kind == B.kind and (getattr(A, 'dtype', None) or B_default(A)) == (getattr(B, 'dtype', None) or B_default(B))
+            return same if isinstance(op, ast.Eq) else not same
         if isinstance(A, Arr) or isinstance(B, Arr):
             shape, acc, obl = self.bshape(A, B)
             for o in obl:
@@ -532,7 +539,9 @@ class NPMixin:
         if full in ('np.integer', 'np.int64', 'np.int32', 'np.int_', 'np.intp'):
             yield st, KindTag('int'); return
         if full in ('np.floating', 'np.float64', 'np.float32', 'np.double'):
-            yield st, KindTag('real'); return
+            kt = KindTag('real')
+            kt.dtype = 'float32' if full == 'np.float32' else 'float64'
+            yield st, kt; return
         if full in ('np.bool_',):
             yield st, KindTag('bool'); return
         if full == 'np.newaxis':
@@ -560,7 +569,9 @@ class NPMixin:
                 if n.attr == 'ndim':
                     yield st1, b.ndim; continue
                 if n.attr == 'dtype':
-                    yield st1, KindTag(b.kind); continue
+                    kt = KindTag(b.kind)
+                    kt.dtype = b.meta.get('dtype')
+                    yield st1, kt; continue
                 if n.attr == 'T':
                     if b.ndim == 1:
                         yield st1, base; continue
@@ -811,6 +822,8 @@ class NPMixin:
             # path on which the callee raises
             s_r = st.copy(); s_r.pc.append(cz)
             self._pending_raises.append((s_r, exc))
+            if z3.is_true(cz):
+                return              # the callee always raises here: no normal continuation
             st.pc.append(z3.Not(cz))
         # havoc what the callee modifies
         for p in c.modifies:
